@@ -34,6 +34,7 @@ type schedTask struct {
 	started  bool
 	opSteps  uint64
 	opBudget uint64
+	lastSite int32
 }
 
 type switchEvent struct {
@@ -56,8 +57,8 @@ var (
 	sEvLog     []switchEvent
 	sKeepLog   bool
 	sAbort     bool
-	sMonitor   func() // called at every switch and every 64th step; must be norace
-	sSitePairs map[uint64]struct{}
+	sMonitor   func()      // called at every switch and every 64th step; must be norace
+	sPairBits  [8192]uint8 // 65536-bucket bitmap of (preempted site, resumed site) pairs, per process
 	sLastSite  int32
 	sHotSteps  []uint64 // in count mode: step indices at which a hot site was hit
 	sRecordHot bool
@@ -140,6 +141,9 @@ func switchTo(me *schedTask, to int, site int32) {
 		sMonitor()
 	}
 	sSwitches++
+	me.lastSite = site
+	pair := plan.Mix(uint64(uint32(site))<<32|uint64(uint32(sTasks[to].lastSite))) & 0xffff
+	sPairBits[pair>>3] |= 1 << (pair & 7)
 	sEvHash = plan.Mix(sEvHash ^ uint64(me.id)<<48 ^ me.steps<<8 ^ uint64(uint32(site))<<40 ^ uint64(to))
 	if sKeepLog {
 		sEvLog = append(sEvLog, switchEvent{me.id, me.steps, site, to, sClock})
@@ -230,3 +234,7 @@ func opSteps() uint64 { return sOpSteps }
 
 //go:norace
 func clock() uint64 { return sClock }
+
+// SitePairBitmap returns the per-process bitmap of distinct (preempted site,
+// resumed site) pairs as hex.
+func SitePairBitmap() []byte { return sPairBits[:] }
